@@ -222,7 +222,7 @@ def configs(tier, seed):
                 out.append(("run_initial", (cls, ns, n)))
     seeds = sorted({0, seed})
     for sampler in ("importance", "emcee", "minipcn", "smc", "emcee_smc"):
-        for precond, sd in itertools.product(("none", "periodic", "logit_affine", "probit", "affine"), seeds):
+        for precond, sd in itertools.product(("none", "tight", "periodic", "logit_affine", "probit", "affine"), seeds):
             if sampler == "importance" and precond != "none":
                 continue
             for ns, dt in (("numpy", None), ("numpy", "float32"), ("torch", None), ("torch", "float64")):
